@@ -5,6 +5,7 @@ import (
 	"go/constant"
 	"go/token"
 	"go/types"
+	"os"
 	"sort"
 	"strings"
 
@@ -224,6 +225,115 @@ func isFieldPtr(t types.Type) bool {
 	return ok && typeIs(p.Elem(), modPath+"/internal/model", "Field") && modelTypeName(p.Elem()) == "Field"
 }
 
+// canonField: a *model.Field read out of a struct-typed parameter (a "context" record handed to per-kind emitters) stands for one
+// field however often it is re-read: all reads of the same member of the same parameter are represented by the first one.
+func canonField(v ssa.Value) ssa.Value {
+	v = stripIdentity(v)
+	var prm *ssa.Parameter
+	idx := -1
+	switch x := v.(type) {
+	case *ssa.Field:
+		if p, ok := x.X.(*ssa.Parameter); ok {
+			prm, idx = p, x.Field
+		}
+	case *ssa.UnOp:
+		if fa, ok := x.X.(*ssa.FieldAddr); ok && x.Op == token.MUL {
+			switch b := fa.X.(type) {
+			case *ssa.Parameter: // pointer to the record
+				prm, idx = b, fa.Field
+			case *ssa.Alloc: // spilled by-value record
+				if b.Comment != "" {
+					for _, p := range b.Parent().Params {
+						if p.Name() == b.Comment {
+							prm, idx = p, fa.Field
+						}
+					}
+				}
+			}
+		}
+	}
+	if prm == nil || !isFieldPtr(v.Type()) {
+		return v
+	}
+	fn := prm.Parent()
+	var first ssa.Value
+	for _, b := range fn.Blocks {
+		for _, ins := range b.Instrs {
+			val, ok := ins.(ssa.Value)
+			if !ok || !isFieldPtr(val.Type()) {
+				continue
+			}
+			switch y := ins.(type) {
+			case *ssa.Field:
+				if y.X == ssa.Value(prm) && y.Field == idx {
+					first = y
+				}
+			case *ssa.UnOp:
+				if fa, ok := y.X.(*ssa.FieldAddr); ok && fa.Field == idx {
+					if fa.X == ssa.Value(prm) {
+						first = y
+					} else if al, ok := fa.X.(*ssa.Alloc); ok && al.Comment == prm.Name() {
+						first = y
+					}
+				}
+			}
+			if first != nil {
+				return first
+			}
+		}
+	}
+	return v
+}
+
+// isCarriedField: a field value the function was handed (a parameter, or a member of a record parameter).
+func isCarriedField(f ssa.Value) bool {
+	if _, ok := f.(*ssa.Parameter); ok {
+		return true
+	}
+	return f != nil && canonField(f) == f && func() bool {
+		switch x := f.(type) {
+		case *ssa.Field:
+			_, ok := x.X.(*ssa.Parameter)
+			return ok
+		case *ssa.UnOp:
+			if fa, ok := x.X.(*ssa.FieldAddr); ok {
+				switch b := fa.X.(type) {
+				case *ssa.Parameter:
+					return true
+				case *ssa.Alloc:
+					return b.Comment != ""
+				}
+			}
+		}
+		return false
+	}()
+}
+
+// uncheckedKind: the kind a single-result assertion on f.Attr commits the rest of the block (and what it dominates) to.
+func uncheckedKind(b *ssa.BasicBlock, f ssa.Value) (int, bool) {
+	for _, ins := range b.Instrs {
+		ta, ok := ins.(*ssa.TypeAssert)
+		if !ok || ta.CommaOk {
+			continue
+		}
+		ld, ok := ta.X.(*ssa.UnOp)
+		if !ok || ld.Op != token.MUL {
+			continue
+		}
+		fa, ok := ld.X.(*ssa.FieldAddr)
+		if !ok || !isFieldPtr(fa.X.Type()) || canonField(fa.X) != f {
+			continue
+		}
+		if _, fname, _, _ := fieldOf(fa); fname != "Attr" {
+			continue
+		}
+		if k, known := kindTypes[modelTypeName(ta.AssertedType)]; known {
+			return k, true
+		}
+	}
+	return 0, false
+}
+
 // fieldTest classifies a branch condition as a test on a field value.
 // returns field value, and a function refining the state along true/false edges.
 func fieldTest(cond ssa.Value) (f ssa.Value, refine func(St, bool) St) {
@@ -320,6 +430,14 @@ func newMatrix(w *World) *matrix {
 				if f, _ := fieldTest(c); f != nil && !seen[f] {
 					seen[f] = true
 					ff.fields = append(ff.fields, f)
+				}
+			}
+			for _, ins := range b.Instrs {
+				if v, ok := ins.(ssa.Value); ok && isFieldPtr(v.Type()) {
+					if cf := canonField(v); cf == v && isCarriedField(v) && !seen[v] {
+						seen[v] = true
+						ff.fields = append(ff.fields, v)
+					}
 				}
 			}
 		}
@@ -457,6 +575,10 @@ func (m *matrix) flow(ff *fnFacts, f ssa.Value) []St {
 		if bi == defBlock {
 			cur = stTop
 			in[bi] = stTop
+		}
+		if k, ok := uncheckedKind(b, f); ok {
+			cur.K &= 1 << k
+			in[bi] = cur
 		}
 		var tf ssa.Value
 		var refine func(St, bool) St
@@ -1312,6 +1434,10 @@ func (m *matrix) resolveAnchors(r *Report) map[string]map[string][]*ssa.Function
 				out[ga.Lang]["padding"] = append(out[ga.Lang]["padding"], f)
 			}
 		}
+		ownSet := map[*ssa.Function]bool{}
+		for _, f := range own {
+			ownSet[f] = true
+		}
 		isRoot := map[*ssa.Function]string{}
 		for role, fs := range roots {
 			for _, f := range fs {
@@ -1329,12 +1455,7 @@ func (m *matrix) resolveAnchors(r *Report) map[string]map[string][]*ssa.Function
 			for len(stack) > 0 {
 				f := stack[len(stack)-1]
 				stack = stack[:len(stack)-1]
-				forEachInstr(f, func(b *ssa.BasicBlock, ins ssa.Instruction) {
-					c, ok := ins.(ssa.CallInstruction)
-					if !ok {
-						return
-					}
-					g := c.Common().StaticCallee()
+				visit := func(g *ssa.Function) {
 					if g == nil || seen[g] || !inSet[g] || g.Pkg != m.w.Parser {
 						return
 					}
@@ -1346,6 +1467,44 @@ func (m *matrix) resolveAnchors(r *Report) map[string]map[string][]*ssa.Function
 					}
 					seen[g] = true
 					stack = append(stack, g)
+				}
+				forEachInstr(f, func(b *ssa.BasicBlock, ins ssa.Instruction) {
+					c, ok := ins.(ssa.CallInstruction)
+					if !ok {
+						return
+					}
+					if g := c.Common().StaticCallee(); g != nil {
+						visit(g)
+						return
+					}
+					if c.Common().IsInvoke() {
+						return
+					}
+					// a call through a function value (method value, dispatch table): the generator's own methods of that signature,
+					// reached directly or through a bound-method wrapper / thunk
+					if n := m.w.CallGraph().Nodes[f]; n != nil {
+						for _, e := range n.Out {
+							if e.Site != c {
+								continue
+							}
+							g := e.Callee.Func
+							if g != nil && g.Synthetic != "" && g.Pkg == nil {
+								for _, bb := range g.Blocks {
+									for _, i2 := range bb.Instrs {
+										if c2, ok := i2.(ssa.CallInstruction); ok && c2.Common().StaticCallee() != nil {
+											if t := c2.Common().StaticCallee(); ownSet[t] && recvNamedCore(t) == ga.Recv {
+												visit(t)
+											}
+										}
+									}
+								}
+								continue
+							}
+							if ownSet[g] && recvNamedCore(g) == ga.Recv {
+								visit(g)
+							}
+						}
+					}
 				})
 			}
 			out[ga.Lang][role] = sortedFuncs(seen)
@@ -1358,6 +1517,15 @@ func (m *matrix) resolveAnchors(r *Report) map[string]map[string][]*ssa.Function
 			m.anchors[f] = true
 		}
 		out[ga.Lang]["own"] = own
+		if os.Getenv("FINLINT_DEBUG_ANCHORS") == ga.Lang {
+			for _, role := range []string{"enc", "dec", "test"} {
+				var names []string
+				for _, f := range out[ga.Lang][role] {
+					names = append(names, f.Name())
+				}
+				fmt.Printf("DBG anchors %s %s: %v\n", ga.Lang, role, names)
+			}
+		}
 	}
 	return out
 }
@@ -1381,7 +1549,7 @@ func (m *matrix) unitGroups(fns []*ssa.Function, u unit) []groupDeps {
 			if f == nil || st.empty() || !st.admits(u) {
 				continue
 			}
-			if _, isParam := f.(*ssa.Parameter); st.isTop() && !isParam && !(f == ctxField && m.facts[fn].ctxSpecific && m.anchors[fn]) {
+			if isParam := isCarriedField(f); st.isTop() && !isParam && !(f == ctxField && m.facts[fn].ctxSpecific && m.anchors[fn]) {
 				continue // no test on the (loop variable) field dominates this site: common text, not specific to any cell
 			}
 			if u.Target && st.L != 1 {
